@@ -7,6 +7,11 @@ Mechanism A (universe export):
 2. Every exported case is realised on pipefunc.sweep (Sweep, MultiSweep, generate_sweep, Sweep.product, +,
    combine, filtered_sweep, count_sweep) and the observed result is compared with the exported one:
    as a list where the property fixes the order, as a multiset otherwise.
+3. Sums are also exercised as EXPRESSIONS and as HISTORIES: every multi case is evaluated through every sum
+   expression TLC exports (`SHAPES`: all nestings / spellings of +, combine, MultiSweep over the operands, e.g.
+   s1 + (s2 + s3), MultiSweep(s1, s2.combine(s3))), and in mode "hist" TLC explores histories of sums formed step
+   by step over operands AND earlier results (NextHist); each reachable state is replayed on real objects that are
+   kept alive, and after every step every object must still enumerate what the store of the state says.
 Python only builds the real objects, interprets the named deriver/exclude family and compares values.
 """
 from __future__ import annotations
@@ -35,13 +40,15 @@ LEVEL = "model_checking"
 NO_DIMS = [["#none"]]
 INVS = {
     "single": "InvWellFormed InvExactlyOnce InvRowMajor InvFinish InvOrderFree InvLen Emit",
-    "multi": "InvWellFormed InvProduct InvConcat InvLen Emit",
+    "multi": "InvWellFormed InvProduct InvConcat InvSums InvLen Emit",
     "filter": "InvWellFormed InvFiltered InvLen Emit",
     "count": "InvWellFormed InvCount Emit",
+    "hist": "InvWellFormed InvHistory Emit",
 }
 CFG = """SPECIFICATION {spec}
 CONSTANTS Mode = "{mode}" MinKeys = {minkeys} MaxKeys = {maxkeys} MaxLen = {maxlen} MaxEmpty = {maxempty}
           NVals = {nvals} Lists = "{lists}" Opts = "{opts}" NOps = {nops} Shard = {shard} NShards = {nshards}
+          MaxSteps = {maxsteps}
 INVARIANT {invs}
 """
 
@@ -61,6 +68,7 @@ class Slice:
     nops: int = 2
     nshards: int = 4
     pandas: bool = False
+    maxsteps: int = 0
 
     def cfg(self, shard: int, spec: str = "Spec") -> str:
         d = dataclasses.asdict(self)
@@ -73,6 +81,7 @@ QUICK = [
     Slice("triples3", "multi", 0, 3, opts="two", nops=3, nshards=5),
     Slice("filter3", "filter", 0, 3, opts="ders2", maxempty=1, nshards=3),
     Slice("count3", "count", 0, 3, opts="two", maxempty=1, nshards=1),
+    Slice("hist3", "hist", 0, 3, nops=3, nshards=8, maxsteps=3),
 ]
 THOROUGH = [
     Slice("single4", "single", 4, 4, opts="few", nshards=32),
@@ -281,7 +290,134 @@ def check_multi(c: dict, o: dict) -> list:
         _list_check(res, csig, api, lambda f=f: f().list(), o["concat"], o["ordered"])
         _len_check(res, dict(csig, check="concat_len", itemless=sig["empty_items_operand"]), f"len({api})",
                    lambda f=f: len(f()), o["clen"])
+    # every sum expression over the operands (exported by TLC, InvSums): it enumerates the concatenation
+    if n not in SHAPES:
+        raise MachineryError(f"no sum expressions exported for {n} operands")
+    for e in SHAPES[n]:
+        esig = dict(sig, check="sum_expr", **_expr_feat(e))
+        txt = _expr_text(e)
+        first = len(res)
+        _list_check(res, esig, "sum-expression", lambda e=e: _eval_expr(e, mk()).list(), o["concat"], o["ordered"])
+        _list_check(res, esig, "iter(sum-expression)", lambda e=e: list(iter(_eval_expr(e, mk()))), o["concat"], o["ordered"])
+        _len_check(res, dict(esig, check="sum_expr_len", itemless=sig["empty_items_operand"]), "len(sum-expression)",
+                   lambda e=e: len(_eval_expr(e, mk())), o["clen"])
+        res[first:] = [(sg, f"{txt}: {what}", obs) for sg, what, obs in res[first:]]
     return res
+
+
+# ------------------------------------------------------------------------------------------------
+# sum expressions (Sweep.tla: Leaf / Node, EvalSum) on real objects
+SHAPES: dict[int, list] = {}  # number of operands -> the expressions TLC exported ("SHAPES" line of a multi run)
+
+
+def _eval_expr(e: dict, objs: list):
+    from pipefunc.sweep import MultiSweep
+    if e["op"] == "leaf":
+        return objs[e["i"] - 1]
+    ch = [_eval_expr(c, objs) for c in e["ch"]]
+    if e["op"] == "+":
+        return ch[0] + ch[1]
+    if e["op"] == "combine":
+        return ch[0].combine(ch[1])
+    if e["op"] == "MultiSweep":
+        return MultiSweep(*ch)
+    raise MachineryError(f"unknown node {e['op']}")
+
+
+def _expr_text(e: dict) -> str:
+    if e["op"] == "leaf":
+        return f"s{e['i']}"
+    ch = [_expr_text(c) for c in e["ch"]]
+    if e["op"] == "+":
+        return f"({ch[0]} + {ch[1]})"
+    if e["op"] == "combine":
+        return f"{ch[0]}.combine({ch[1]})"
+    return f"MultiSweep({', '.join(ch)})"
+
+
+def _nodes(e: dict):
+    yield e
+    for c in e["ch"]:
+        yield from _nodes(c)
+
+
+def _expr_feat(e: dict) -> dict:
+    """How the expression is nested: which kinds of operand a binary +/combine node gets."""
+    binary = [x for x in _nodes(e) if x["op"] in ("+", "combine")]
+    return {"root": e["op"],
+            "plain_left_sum_right": any(x["ch"][0]["op"] == "leaf" and x["ch"][1]["op"] != "leaf" for x in binary),
+            "sum_left": any(x["ch"][0]["op"] != "leaf" for x in binary)}
+
+
+def _add_shapes(shapes: list) -> None:
+    for e in shapes:
+        n = sum(1 for x in _nodes(e) if x["op"] == "leaf")
+        if e not in SHAPES.setdefault(n, []):
+            SHAPES[n].append(e)
+
+
+def _register_shapes(prints: list[str]) -> None:
+    for ln in prints:
+        if ln.startswith('<<"SHAPES", '):
+            _add_shapes(parse_prints([ln])[0][1])
+
+
+# ------------------------------------------------------------------------------------------------
+# histories (Sweep.tla: StoreInit / StepStore, MC_Sweep.tla: NextHist) on real objects that stay alive
+def _kind(i: int, n: int) -> str:
+    return "plain" if i <= n else "sum"
+
+
+def check_hist(c: dict, o: dict) -> list:
+    """Replay the history step by step; after every step EVERY object must enumerate what the store says.
+    Stops at the first step that shows a difference and reports its first difference (result, arguments, others)."""
+    from pipefunc.sweep import MultiSweep
+    ss, sp, ops, exp, ordered = c["ss"], c["sp"], c["ops"], o["objs"], o["ordered"]
+    n = len(ss)
+    objs = [build_sweep(s) for s in ss]
+    for k in range(len(ops) + 1):
+        sig = {"check": "history", "spelling": sp, "ordered": ordered, "step": "init", "left": "n/a", "right": "n/a",
+               "same_arg_twice": False, "arg_sum": False}
+        roles: dict[int, str] = {}
+        text = "the operands"
+        if k:
+            op = ops[k - 1]
+            a = op["a"]
+            args = [objs[i - 1] for i in a]
+            sig.update(step=op["f"], same_arg_twice=len(set(a)) < len(a), arg_sum=any(i > n for i in a))
+            if op["f"] == "sum":
+                sig.update(left=_kind(a[0], n), right=_kind(a[1], n))
+                text = f"o{len(objs) + 1} = o{a[0]} + o{a[1]}" if sp == "+" else f"o{len(objs) + 1} = o{a[0]}.combine(o{a[1]})"
+                r, exc = _call((lambda: args[0] + args[1]) if sp == "+" else (lambda: args[0].combine(args[1])))
+                roles = {a[1]: "right", a[0]: "left"}
+            else:
+                text = f"o{len(objs) + 1} = MultiSweep({', '.join(f'o{i}' for i in a)})"
+                r, exc = _call(lambda: MultiSweep(*args))
+                roles = {i: "argument" for i in a}
+            if exc:
+                return [(dict(sig, target="result", api="step", exc=exc, delta="n/a"), f"step {k} ({text}) raised {exc}", exc)]
+            objs.append(r)
+            roles[len(objs)] = "result"
+        order = sorted(range(1, len(objs) + 1), key=lambda j: ({"result": 0, "left": 1, "right": 2, "argument": 3}.get(roles.get(j), 4), j))
+        for j in order:
+            res: list = []
+            tsig = dict(sig, target=roles.get(j, "other"))
+            ob, e = objs[j - 1], exp[j - 1]
+            _list_check(res, tsig, "list", ob.list, e["combos"], ordered)
+            _list_check(res, tsig, "iter", lambda ob=ob: list(iter(ob)), e["combos"], ordered)
+            _len_check(res, tsig, "len", lambda ob=ob: len(ob), e["len"])
+            if res:
+                sg, what, obs = res[0]
+                hist = "; ".join(_step_text(ops[i], n + i + 1, sp) for i in range(k))
+                return [(sg, f"after [{hist or 'no step'}] object o{j} ({tsig['target']} of step {k}): {what}", obs)]
+    return []
+
+
+def _step_text(op: dict, new: int, sp: str) -> str:
+    a = op["a"]
+    if op["f"] == "sum":
+        return f"o{new} = o{a[0]} + o{a[1]}" if sp == "+" else f"o{new} = o{a[0]}.combine(o{a[1]})"
+    return f"o{new} = MultiSweep({', '.join(f'o{i}' for i in a)})"
 
 
 def check_filter(c: dict, o: dict) -> list:
@@ -330,6 +466,8 @@ def check_case(rec: dict, pandas: bool = False) -> list:
         return check_filter(c, o)
     if kind == "count":
         return check_count(c, o, pandas)
+    if kind == "hist":
+        return check_hist(c, o)
     raise MachineryError(f"unknown case kind {kind}")
 
 
@@ -341,6 +479,8 @@ def nontrivial(rec: dict) -> bool:
         return len(o["product"]) >= 2
     if kind == "filter":
         return len(o["filtered"]) >= 2
+    if kind == "hist":  # at least one step, and its result enumerates something
+        return bool(rec["c"]["ops"]) and len(o["objs"][-1]["combos"]) >= 2
     return any(sum(r["n"] for r in d["tab"]) >= 2 for d in o["counts"])
 
 
@@ -354,6 +494,7 @@ def _shard(args) -> dict:
     r = run_tlc("MC_Sweep", sl.cfg(shard), Path(wd), workers=1, heap="1500m", allow_violation=False, timeout=3000,
                 env=JVM_ENV)
     t0 = time.time()
+    _register_shapes(r.prints)
     n = 0
     cases: list[tuple[str, bool]] = []
     viol: list = []
@@ -382,7 +523,7 @@ def _shard(args) -> dict:
     r.stdout = ""
     r.prints = []
     return {"slice": sl.name, "shard": shard, "tlc": r, "n": n, "cases": cases, "viol": viol, "counts": dict(counts),
-            "kept": kept, "py_s": time.time() - t0}
+            "kept": kept, "py_s": time.time() - t0, "shapes": SHAPES.get(sl.nops, []) if sl.mode == "multi" else []}
 
 
 # ------------------------------------------------------------------------------------------------
@@ -411,6 +552,9 @@ def _corrupt(rec: dict) -> str | None:
         d = next(d for d in o["counts"] if d["tab"])
         d["tab"][0]["n"] += 1
         return "count: one count + 1"
+    if kind == "hist" and rec["c"]["ops"] and o["objs"][-1]["combos"]:
+        o["objs"][-1]["combos"].pop()
+        return "hist: last combination of the newest object dropped"
     return None
 
 
@@ -444,16 +588,39 @@ def selftest_binding(ctx: Ctx, kept: dict[str, list[dict]]) -> None:
             ctx.selftest("expected-value corruption (single: len + 1)", got == base | {victim},
                          f"case {victim}: rejected={sorted(got)} expected={sorted(base | {victim})}")
             break
+    # sums: the expected concatenation of a multi case; the expected list of an EARLIER object of a history
+    recs = kept.get("multi", [])[:90]
+    base = _mismatch_set(recs)
+    for victim, r in enumerate(recs):
+        if victim not in base and len(r["out"]["concat"]) >= 2 and r["out"]["ordered"]:
+            mut = copy.deepcopy(recs)
+            mut[victim]["out"]["concat"].reverse()
+            got = _mismatch_set(mut)
+            ctx.selftest("expected-value corruption (multi: concat reversed)", got == base | {victim},
+                         f"case {victim}: rejected={sorted(got)} expected={sorted(base | {victim})}")
+            break
+    recs = kept.get("hist", [])[:90]
+    base = _mismatch_set(recs)
+    for victim, r in enumerate(recs):
+        if victim not in base and len(r["c"]["ops"]) >= 2 and r["out"]["objs"][3]["combos"]:
+            mut = copy.deepcopy(recs)
+            mut[victim]["out"]["objs"][3]["len"] += 1
+            got = _mismatch_set(mut)
+            ctx.selftest("expected-value corruption (hist: len of the first result + 1)", got == base | {victim},
+                         f"case {victim}: rejected={sorted(got)} expected={sorted(base | {victim})}")
+            break
 
 
 # ------------------------------------------------------------------------------------------------
 def run(ctx: Ctx) -> None:
     quick = ctx.tier == "quick"
     slices = QUICK if quick else QUICK + THOROUGH
-    ctx.rule = ("case = one exported initial state of MC_Sweep: a sweep description (items, dims, constants, derivers, "
+    ctx.rule = ("case = one exported state of MC_Sweep: a sweep description (items, dims, constants, derivers, "
                 "exclude) [single], 2-3 such sweeps with disjoint keys [multi: product, +, MultiSweep, combine], a sweep and "
-                "a key set [filter], a sweep and a pipeline [count]; the universe is every value of the TLA+ set for the "
-                "slice constants listed under `slices`; non-trivial = the required list (combinations / product / "
+                "a key set [filter], a sweep and a pipeline [count], three sweeps and a history of <= 3 sums over them and "
+                "over earlier results, every object re-observed after every step [hist]; every multi case is also "
+                "evaluated through every exported sum expression (nestings/spellings of +, combine, MultiSweep); the "
+                "universe is every value of the TLA+ set (hist: every reachable state) for the slice constants listed under `slices`; non-trivial = the required list (combinations / product / "
                 "projections) has >= 2 elements, for count: some dependency counts >= 2 combinations")
     ctx.assumptions = [
         "TLC and its Json module are trusted",
@@ -490,6 +657,7 @@ def run(ctx: Ctx) -> None:
             py_s += r["py_s"]
             for dg, nt in r["cases"]:
                 ctx.case(dg, nontrivial=nt)
+            _add_shapes(r["shapes"])
             for k, v in r["counts"].items():
                 mismatch_counts[k] += v
             for sig, what, wit in r["viol"]:
@@ -532,8 +700,9 @@ def tlc_expectation(ctx: Ctx, case: dict) -> dict:
         "---- MODULE MC_SweepReplay ----\nEXTENDS MC_Sweep\n"
         f"ReplayCase == {_tla(case)}\n"
         "RSpec == Set(ReplayCase) /\\ [][Next]_vars\n====\n")
-    sl = Slice("replay", case["kind"], 0, 4, nops=len(case.get("ss", [0, 0])), nshards=1)
+    sl = Slice("replay", case["kind"], 0, 4, nops=len(case.get("ss", [0, 0])), nshards=1, maxsteps=len(case.get("ops", [])))
     r = run_tlc("MC_SweepReplay", sl.cfg(0, spec="RSpec"), wd, workers=1, heap="1g", allow_violation=False)
+    _register_shapes(r.prints)
     recs = [p for t, p in parse_prints(r.prints) if t == "CASE"]
     if not recs:
         raise MachineryError("replay: TLC exported nothing")
